@@ -203,6 +203,9 @@ def k_decode(p):
     fast = bool(p.get("fast", False))
     chk = p.get("vt_check")
     table = np.array(p["table"], dtype=int) if p.get("table") is not None else None
+    if p.get("warmup"):
+        k_ = int(round(np.log(len(acc)) / np.log(4)))
+        call(dsw.decode, "AC", 4, dsw.get_complete_accessor(k_), 0, is_faster=fast)
     walk = is_walk(acc, start, s)
     chk_ok = True
     if chk is not None:
